@@ -1798,3 +1798,140 @@ def f7(prog, tier="quick"):
     if bad:
         findings.append({"key": key, "where": "libzwerg/" + f["l"], "msg": bad, "detail": None})
     return inst, findings
+
+
+# ---------------------------------------------------------------------------
+# M2: `unit` on a Dwarf lists exactly the units it should
+
+def m2(prog, tier="quick"):
+    """dwarf_unit_producer::next with maybe_next_dwarf and next_acceptable_unit, interpreted from source on abstract Dwarf lists: a value
+    may hold several Dwarfs (a file and its alt file, the members of an archive), each a sequence of compile (C) and partial (P) units.
+    Raw mode lists every unit of every Dwarf in order; cooked mode lists exactly the non-partial ones; results are numbered from 0 and
+    carry the unit's own Dwarf_CU and offset.  All sequences over {C, P} up to length 2 (3) in up to 2 (3) Dwarfs."""
+    import itertools
+    from cxxobj import CxxEvaluator, Obj, Struct, Vec, Sym, OutOfBounds
+    from absint import Thrown
+    inst, findings = [], []
+    cls = "(anonymous namespace)::dwarf_unit_producer"
+    ctor = [f for f in prog.funcs.values() if f.get("cls") == cls and f["n"] == "dwarf_unit_producer" and (f.get("body") is not None or f.get("inits"))]
+    nxt = [f for f in prog.funcs.values() if f.get("cls") == cls and f["n"] == "next" and f.get("body") is not None]
+    if len(ctor) != 1 or len(nxt) != 1:
+        raise Broken("anchor dwarf_unit_producer (constructor / next) vanished")
+    tags = {}
+    for e in prog.enums.values():
+        if e["file"] == "/usr/include/dwarf.h":
+            for c in e["consts"]:
+                if c["n"] in ("DW_TAG_partial_unit", "DW_TAG_compile_unit"):
+                    tags[c["n"]] = c["v"]
+    don_enum = None
+    for e in prog.enums.values():
+        if e["q"] == "doneness":
+            don_enum = {c["n"]: ("enum", c["n"], c["v"]) for c in e["consts"]}
+    if len(tags) != 2 or don_enum is None:
+        raise Broken("enumerations needed by M2 not found")
+
+    class Unit:
+        def __init__(self, dw, idx, kind):
+            self.dw, self.idx, self.kind = dw, idx, kind
+            self.tag = tags["DW_TAG_partial_unit" if kind == "P" else "DW_TAG_compile_unit"]
+            self.off = 0x10 * idx + 0xb
+            self.cuobj = Obj("Dwarf_CU")
+            self.cuobj.unit = self
+            self.addr = id(self)
+
+        def __repr__(self):
+            return "%s%d.%d" % (self.kind, self.dw.k, self.idx)
+
+    class ADwarf:
+        def __init__(self, k, kinds):
+            self.k = k
+            self.units = [Unit(self, i, c) for i, c in enumerate(kinds)]
+            self.addr = 0x100 + k
+
+        def copy_value(self):
+            return self
+
+    class CuIt:
+        def __init__(self, dw, pos):
+            self.dw, self.pos = dw, pos
+            self.addr = id(self)
+
+        def at_end(self):
+            return self.dw is None or self.pos >= len(self.dw.units)
+
+        def copy_value(self):
+            return CuIt(self.dw, self.pos)
+
+        def assign_from(self, o):
+            self.dw, self.pos = o.dw, o.pos
+
+        def eq(self, o):
+            return (self.at_end() and o.at_end()) or (self.dw is o.dw and self.pos == o.pos)
+
+        def cur(self):
+            if self.at_end():
+                raise OutOfBounds("dereference of a unit iterator at its end")
+            return self.dw.units[self.pos]
+
+    def inc(ev, o, a):
+        if o.at_end():
+            raise OutOfBounds("increment of a unit iterator at its end")
+        old = o.copy_value()
+        o.pos += 1
+        return old if a else o
+
+    def deref(ev, o, a):
+        u = o.cur()
+        d = Struct("Dwarf_Die", {})
+        d.die, d.cu, d.tag = u, u.cuobj, u.tag
+        return d
+    hooks = {
+        "all_dwarfs": lambda ev, o, a: Vec(list(a[0].dwarfs), "dwarfs"),
+        "ctor:cu_iterator": lambda ev, o, a: (a[0].copy_value() if isinstance(a[0], CuIt) else CuIt(a[0], 0)) if a else CuIt(None, 0),
+        "cu_iterator::end": lambda ev, o, a: CuIt(None, 0),
+        "cu_iterator::operator==": lambda ev, o, a: o.eq(a[0]),
+        "cu_iterator::operator!=": lambda ev, o, a: not o.eq(a[0]),
+        "cu_iterator::operator++": inc,
+        "cu_iterator::operator*": deref,
+        "cu_iterator::offset": lambda ev, o, a: o.cur().off,
+        "dwarf_tag": lambda ev, o, a: a[0].tag,
+    }
+    ev = CxxEvaluator(hooks, {}, prog=prog)
+    maxlen, maxdw = (3, 3) if tier == "thorough" else (2, 2)
+    seqs = [()]
+    for n in range(1, maxlen + 1):
+        seqs += list(itertools.product("CP", repeat=n))
+    key = "M2:dwarf_unit_producer"
+    bad = None
+    n_eval = 0
+    try:
+        for ndw in range(1, maxdw + 1):
+            for combo in itertools.product(seqs, repeat=ndw):
+                for don in ("cooked", "raw"):
+                    dwctx = Obj("dwfl_context")
+                    dwctx.dwarfs = [ADwarf(k, kinds) for k, kinds in enumerate(combo)]
+                    prod = ev.construct(ctor[0], Obj(cls), [dwctx, don_enum[don]])
+                    got = []
+                    total = sum(len(c) for c in combo)
+                    for _ in range(total + 2):
+                        v = ev.call(nxt[0], prod, [])
+                        n_eval += 1
+                        if v is None:
+                            break
+                        got.append(v)
+                    want = [u for d in dwctx.dwarfs for u in d.units if don == "raw" or u.kind == "C"]
+                    seq = [getattr(getattr(g, "m_cu", None), "unit", None) for g in got]
+                    desc = " | ".join("".join(c) or "-" for c in combo)
+                    if seq != want and bad is None:
+                        bad = "`unit` (%s) on a value holding the Dwarfs %s lists %s; expected %s%s" % (
+                            don, desc, seq, want, ": a partial unit is listed as a unit" if don == "cooked" and any(u is not None and u.kind == "P" for u in seq) else "")
+                    elif bad is None and ([getattr(g, "m_pos", None) for g in got] != list(range(len(got))) or [getattr(g, "m_offset", None) for g in got] != [u.off for u in want]):
+                        bad = "`unit` (%s) on %s numbers its results %s with offsets %s" % (don, desc, [getattr(g, "m_pos", None) for g in got], [getattr(g, "m_offset", None) for g in got])
+    except OutOfBounds as x:
+        bad = bad or "dwarf_unit_producer: %s" % x
+    except Thrown as x:
+        bad = bad or "dwarf_unit_producer raises an error (%s)" % x
+    inst.append((key, {"next_calls": n_eval}))
+    if bad:
+        findings.append({"key": key, "where": "libzwerg/" + nxt[0]["l"], "msg": bad, "detail": None})
+    return inst, findings
